@@ -643,6 +643,8 @@ def _ref_schemas(d):
     yield {"$ref": "#/items/0", "items": [{"type": "string"}]}
     yield {"$ref": "#/items/5", "items": [{"type": "string"}]}
     yield {"$ref": "#/items/x", "items": [{"type": "string"}]}
+    yield {"$ref": "#/items/" + "9" * 5000, "items": [{"type": "string"}]}        # more digits than int() converts
+    yield {"properties": {"p": {"$ref": "#/items/" + "1" * 4301}}, "items": [{"type": "string"}]}
     yield {"$ref": "#/definitions/a/type/0", "definitions": {"a": {"type": "string"}}}
     # strings urllib refuses to take apart (unbalanced brackets in the authority, characters that NFKC-normalise into
     # URL syntax) and other unlikely URLs, as references and as ids
